@@ -1434,6 +1434,86 @@ def with_roles(fn, roles):
     return dataclasses.replace(fn, node=node)
 
 
+def string_expr(fn_node: ast.FunctionDef, e: ast.AST, _depth: int = 0) -> Optional[ast.JoinedStr]:
+    """a string-building expression as ONE f-string, or None: f-strings, literals, `a + b`, `str(x)`, `sep.join(map(str, [a, b]))`
+    / `sep.join(str(x) for x in [a, b])` / `sep.join([str(a), f"{b}"])` over a list display, and a local bound once to any of these
+    (the list display as well) — the fields of a written line in the order and with the separators the text will have"""
+    if _depth > 8:
+        return None
+
+    def once(name):
+        ds = [n for n in ast.walk(fn_node) if isinstance(n, ast.Assign) and len(n.targets) == 1 and isinstance(n.targets[0], ast.Name) and n.targets[0].id == name]
+        stores = [n for n in ast.walk(fn_node) if isinstance(n, ast.Name) and n.id == name and isinstance(n.ctx, (ast.Store, ast.Del))]
+        muts = [n for n in ast.walk(fn_node) if isinstance(n, ast.Call) and isinstance(n.func, ast.Attribute) and isinstance(n.func.value, ast.Name) and
+                n.func.value.id == name and n.func.attr in ("append", "extend", "insert", "pop", "remove", "sort", "reverse", "clear")]
+        return ds[0].value if len(ds) == 1 and len(stores) == 1 and not muts else None
+
+    def fv(x):
+        return ast.FormattedValue(value=x, conversion=-1, format_spec=None)
+
+    def items_of(a):
+        """elements of a list display (possibly through a local bound once)"""
+        if isinstance(a, ast.Name):
+            a = once(a.id)
+        if isinstance(a, (ast.List, ast.Tuple)) and not any(isinstance(x, ast.Starred) for x in a.elts):
+            return list(a.elts)
+        return None
+
+    def is_str_fn(f):
+        return isinstance(f, ast.Name) and f.id == "str"
+    if isinstance(e, ast.Constant) and isinstance(e.value, str):
+        return ast.JoinedStr(values=[e])
+    if isinstance(e, ast.JoinedStr):
+        vals: List[ast.AST] = []
+        for v in e.values:
+            if isinstance(v, ast.FormattedValue) and v.conversion == -1 and v.format_spec is None and isinstance(v.value, ast.Name):
+                inner = once(v.value.id)
+                sub = string_expr(fn_node, inner, _depth + 1) if inner is not None and isinstance(inner, (ast.JoinedStr, ast.BinOp, ast.Call)) else None
+                if sub is not None:
+                    vals.extend(sub.values)
+                    continue
+            vals.append(v)
+        return ast.copy_location(ast.JoinedStr(values=vals), e)
+    if isinstance(e, ast.Name):
+        inner = once(e.id)
+        return string_expr(fn_node, inner, _depth + 1) if inner is not None else None
+    if isinstance(e, ast.BinOp) and isinstance(e.op, ast.Add):
+        a, b = string_expr(fn_node, e.left, _depth + 1), string_expr(fn_node, e.right, _depth + 1)
+        if a is None or b is None:
+            return None
+        return ast.copy_location(ast.JoinedStr(values=list(a.values) + list(b.values)), e)
+    if isinstance(e, ast.Call) and is_str_fn(e.func) and len(e.args) == 1 and not e.keywords:
+        return ast.copy_location(ast.JoinedStr(values=[fv(e.args[0])]), e)
+    if isinstance(e, ast.Call) and isinstance(e.func, ast.Attribute) and e.func.attr == "join" and isinstance(e.func.value, ast.Constant) and \
+            isinstance(e.func.value.value, str) and len(e.args) == 1 and not e.keywords:
+        sep = e.func.value.value
+        a = e.args[0]
+        parts = None
+        if isinstance(a, ast.Call) and isinstance(a.func, ast.Name) and a.func.id == "map" and len(a.args) == 2 and is_str_fn(a.args[0]):
+            its = items_of(a.args[1])
+            parts = [ast.JoinedStr(values=[fv(x)]) for x in its] if its is not None else None
+        elif isinstance(a, (ast.GeneratorExp, ast.ListComp)) and len(a.generators) == 1 and not a.generators[0].ifs and \
+                isinstance(a.generators[0].target, ast.Name) and isinstance(a.elt, ast.Call) and is_str_fn(a.elt.func) and len(a.elt.args) == 1 and \
+                isinstance(a.elt.args[0], ast.Name) and a.elt.args[0].id == a.generators[0].target.id:
+            its = items_of(a.generators[0].iter)
+            parts = [ast.JoinedStr(values=[fv(x)]) for x in its] if its is not None else None
+        else:
+            its = items_of(a)
+            if its is not None:
+                parts = [string_expr(fn_node, x, _depth + 1) for x in its]
+                if any(p is None for p in parts):
+                    parts = None
+        if parts is None:
+            return None
+        vals = []
+        for i, p_ in enumerate(parts):
+            if i:
+                vals.append(ast.Constant(value=sep))
+            vals.extend(p_.values)
+        return ast.fix_missing_locations(ast.copy_location(ast.JoinedStr(values=vals), e))
+    return None
+
+
 def _zip_stack_to_cursor(node: ast.FunctionDef) -> bool:
     """`S = list(zip(A, B))` used only as a stack that is read at its top and popped — `S[-1][i]`, `x, y = S[-1]`, `S.pop()` as a
     statement — is a cursor `k = -1` into the parallel tables: `S[-1][0]` is `A[k]`, `S[-1][1]` is `B[k]`, `S.pop()` is `k -= 1`
